@@ -74,9 +74,12 @@ def gen_atom(r, snap):
         op = r.choice(["=", "!=", "==", "ne", "eq"])
         return ("bool", col, op, lit, "%s %s %s" % (col, op, lit))
     # quoted literal spelling a column / function name is text
-    col = r.choice(["name", "ext"])
-    lit = r.choice(["size", "bin", "name", "hex", "mode", "lower"])
-    op = r.choice(["=", "!=", "===", "like"])
+    col = r.choice(["name", "ext", "name", "dir", "mode"])
+    # spellings of columns/functions, and the internal display texts of expressions (the evaluator's
+    # value cache is keyed by those texts: a literal must never be answered from it)
+    lit = r.choice(["size", "bin", "name", "hex", "mode", "lower", "Name", "Extension", "Directory", "Mode", "Size", "Path",
+                    "Length(Name)", "IsDir", "Uid", "(Size + 1)", "Lower(Name)"])
+    op = r.choice(["=", "!=", "===", "like", "!==", "notlike"])
     return ("text", col, op, lit, "%s %s %s" % (col, op, q(lit)))
 
 
@@ -93,6 +96,7 @@ def run(ctx):
             ents = fstree.gen_tree(r, max_entries=r.choice([8, 20, 35]), kinds="fdlp", adversarial=r.chance(1, 4))
             # names that spell columns/functions
             ents.append({"path": r.choice(["size", "bin", "name.hex", "lower.mode"]), "kind": "f", "size": 3, "mode": 0o644, "mtime": 1700000000})
+            ents.append({"path": r.choice(["Name", "Extension", "Size", "Mode", "x.Extension", "Length(Name)"]), "kind": "f", "size": 4, "mode": 0o644, "mtime": 1700000000})
             snap = corr.Snap(scratch, ents, subdir="t%d" % t, tz="UTC")
             for _ in range(per_tree):
                 kind, col, op, lit, text = gen_atom(r, snap)
